@@ -13,7 +13,7 @@ TXT = {
  "C03": "Design: at-most-once as invariant; exactly-once at return of clean runs; channel capacity is a model parameter whose reduction fails. Code: same predicates on every start/return/stream-end event, incl. wide graphs (20-140 functions), graphs with 256+ predecessors per function and streams over 1024+ root functions.",
  "C04": "Design: invariant `idle and nothing in flight implies returned`, no panic action reachable, everything started ended at return, and <>returned under fairness, for graphs from 0 nodes. Code: idleness is observed (Pending and waker flag not set) at every poll of every schedule explored, incl. user futures that are ready on their first poll and tokio task polls whose cooperative budget runs out inside fn_graph's own channel/lock operations (budget sweeps); panics are caught and judged; both feature builds.",
  "C05": "Design: the poll function of stream() is transcribed with tokio's waker registration; invariant NoStall after every Pending poll over all poll/drop interleavings (all DAGs on <=3, thorough 4-5 functions), end-exactness, liveness under a fair consumer. Code: every interleaving of polls and FnRef drops for small graphs, incl. a second consumer task taking over with its own waker; random, sequential and batching consumers on graphs up to 140 functions, also inside a tokio runtime (cooperative budget); every poll and drop is additionally compared with the model's predicted outcome and waker flag (TraceStream).",
- "C06": "Design: invariant at idle states of unlimited, unsignalled, failure-free runs; Builder invariant that every non-user edge is a Data edge between conflicting functions. Code: evaluated at every observed quiescent point against the built edges the code reports.",
+ "C06": "Design: invariant at idle states of unlimited, unsignalled, failure-free runs; Builder invariant that every non-user edge is a Data edge between conflicting functions. Code: evaluated at every observed quiescent point against the built edges the code reports -- of the concurrent calls, and of stream*() (idle stream with a function whose predecessors' FnRefs were all dropped).",
  "C07": "Design: invariants for every failing subset (<=2-3) of every DAG: no descendant of a failed function started, errors = failed at return, try_fold stops. Code: same on every trace of the try APIs with failing functions at every position, incl. functions failing on their first poll and failures coinciding with an exhausted tokio budget.",
  "C08": "Design: InterruptibleStream transcribed (IStream, also checked alone over an arbitrary inner stream); bound on functions handed out by the ready stream after the signal for every signal position incl. mid-poll and pre-pending; the bound on STARTS is shown to fail for the for_each bodies under a mid-poll signal (expected-to-fail design run). Code: signal fired at every between-poll point of every schedule and from inside completing user futures, senders dropped early, tokio budget on; TLC counts starts after the signal. One known finding (mid-poll signal, for_each bodies) is listed in known_findings.json and printed as KNOWN-FINDING.",
  "C09": "Design: outcome fields vs observation history at return on every exit path. Code: `return` event compared by TLC with the start events of the same run.",
